@@ -26,10 +26,13 @@ theorem C11_witness_reply :
     ∀ k ∈ [Kind.globalRequestWantReply, Kind.channelOpen],
       (kexWindow (run {} (crossing k)).wire).any (fun t => !transportLayer t) = true := by decide
 
-/-- **Defect (b), mechanism `_send_user_message` on the transport thread.** An in-flight CHANNEL_CLOSE or channel
-request with want_reply makes the transport thread wait for an event only it can set: the session is lost. -/
+/-- **Defect (b), mechanism `_send_user_message` on the transport thread.** An in-flight CHANNEL_CLOSE, channel
+request with want_reply, CHANNEL_FAILURE (→ `_request_failed` closes the channel) or enough discarded extended data
+(→ `_feed_extended` sends a window adjustment) makes the transport thread wait for an event only it can set: the
+session is lost. -/
 theorem C11_witness_selfblock :
-    ∀ k ∈ [Kind.channelClose, Kind.channelRequestWantReply], (run {} (crossing k)).dead = true := by decide
+    ∀ k ∈ [Kind.channelClose, Kind.channelRequestWantReply, Kind.channelFailure, Kind.extendedDataDiscarded],
+      (run {} (crossing k)).dead = true := by decide
 
 /-- events that use neither defective mechanism: in-flight messages whose handler sends nothing, user-thread
 sends, and the exchange's own steps -/
